@@ -1,6 +1,6 @@
 """Implementation side of C08 (joblib.hash).  stdin: one JSON case per line; stdout: one JSON result per line.
 
-case   : {"v": spec, "perm": "id" | "rev" | "shuf:<int>", "want": ["stream","iter","md5","sha1"]}
+case   : {"v": spec, "perm": "id" | "rev" | "shuf:<int>" (optionally + "+share": equal str/bytes are ONE shared object), "want": ["stream","iter","md5","sha1"]}
 spec   : ["N"] | ["B",bool] | ["I","<decimal>"] | ["F","<bits64 decimal>"] | ["S","<hex of utf-8/surrogatepass>"]
          | ["Y","<hex>"] | ["T",[spec..]] | ["L",[spec..]] | ["D",[[kspec,vspec]..]] | ["E",[spec..]] (set)
          | ["Z",[spec..]] (frozenset)
@@ -23,8 +23,12 @@ import joblib
 from joblib import hashing
 
 
+SHARE = {}
+
+
 def order(items, perm, salt):
     items = list(items)
+    perm = perm.replace("+share", "")
     if perm == "rev":
         items.reverse()
     elif perm.startswith("shuf:"):
@@ -45,9 +49,18 @@ def build(s, perm, depth=0):
     if t == "S":
         b = bytes.fromhex(s[1])
         # assembled from two pieces at run time: a distinct object even for equal text
+        if "+share" in perm:
+            # the opposite experiment: one shared object for all equal strings of the value
+            if ("S", s[1]) not in SHARE:
+                SHARE["S", s[1]] = b.decode("utf-8", "surrogatepass")
+            return SHARE["S", s[1]]
         h = _cut(b)
         return "".join([b[:h].decode("utf-8", "surrogatepass"), b[h:].decode("utf-8", "surrogatepass")])
     if t == "Y":
+        if "+share" in perm:
+            if ("Y", s[1]) not in SHARE:
+                SHARE["Y", s[1]] = bytes(bytearray.fromhex(s[1]))
+            return SHARE["Y", s[1]]
         return bytes(bytearray.fromhex(s[1]))
     if t == "T":
         return tuple([build(x, perm, depth + 1) for x in s[1]])
